@@ -176,6 +176,7 @@ var (
 	ErrLimit     = errors.New("list or bitlist limit exceeded")
 	ErrOffsets   = errors.New("inconsistent offsets")
 	ErrOther     = errors.New("invalid value encoding")
+	ErrPadding   = errors.New("bits set beyond the length of a bitvector")
 )
 
 func Parse(t *T, b []byte) (chunk, error) {
@@ -210,7 +211,7 @@ func Parse(t *T, b []byte) (chunk, error) {
 			return chunk{}, ErrTruncated
 		}
 		if t.Size%8 != 0 && b[len(b)-1]>>(t.Size%8) != 0 {
-			return chunk{}, ErrOther
+			return chunk{}, ErrPadding
 		}
 		return merkleize(pack(b), (t.Size+255)/256), nil
 	case KBitlist:
